@@ -215,7 +215,8 @@ def run_classify(imports, defs, case_type, cases, checker, shard=200):
                 f.write(coqrun.PRELUDE.format(imports=imports))
                 f.write(defs + "\n")
                 f.write(f"Definition cases : list ({case_type}) := [\n" + ";\n".join(cases[k:k + shard]) + "\n].\n")
-                f.write(f"Eval vm_compute in (classify ({checker}) cases).\n")
+                f.write(f"Definition the_checker : ({case_type}) -> nat := {checker}.\n")
+                f.write("Eval vm_compute in (classify the_checker cases).\n")
             paths.append((k, path))
         with ThreadPoolExecutor(max_workers=12) as ex:
             outs = list(ex.map(coqrun._run_shard, [(p, 900) for _, p in paths]))
